@@ -91,6 +91,28 @@ PROPS['C17'] = {
     'assumptions': ['instants are compared as integers (chrono timestamps)'],
 }
 
+PROPS['C15'] = {
+    'level': 'proof',
+    'technique': 'Lean 4 theorems on a model of the SLURM filters, assertions and serde tree mapping (drop decision as an existence '
+                 'claim per item kind; JSON-tree round trip) + differential check of the real SlurmFile over all filter shapes',
+    'claim': 'Lean 4 proofs for all filter lists and payload items that drop_payload holds exactly when a filter of the item\'s kind '
+             'matches (and/or criteria table, prefix criterion = range inclusion via C13, no criteria = no match), that every assertion '
+             'yields exactly its payload, that SlurmFile::new picks the version by ASPA presence, and that the serde tree of every '
+             'well-formed file parses back to an equal file. Partial: serde_json\'s text writer/parser and Base64 are not modelled - '
+             'the check compares JSON trees (implementation output re-read in field order) and feeds mutated trees to from_str.',
+    'note': 'The serde attribute semantics (default, skip_serializing_if, deny_unknown_fields - absent on BgpsecFilter -, null handling, '
+            'duplicate fields, integer ranges) are mirrored by hand in Rpki/Model/Slurm.lean and validated differentially on valid and '
+            'mutated files. Whether drop_payload consults all three lists, and ProviderAsns::MAX_COUNT, are regenerated from the source.',
+    'shards': {'quick': 4, 'thorough': 16},
+    'budget': {'quick': 600, 'thorough': 7200},
+    'rule': 'drop: 10 payload items of all three kinds x (every single filter and every ordered pair of filters of each kind over all '
+            'present/absent criteria combinations: 21 prefix, 9 bgpsec, 3 aspa shapes) + random mixed lists; json: random valid files '
+            '(comments with quotes/control/non-ASCII) and 3 structure-aware mutations each (drop/duplicate/null/retype/unknown key/wrap); '
+            'payloads and version choice per file.',
+    'trusted_base': ['serde/serde_json derive semantics mirrored by hand (validated differentially)'],
+    'assumptions': ['Base64 and IP prefix text are canonicalised by the harness before comparison'],
+}
+
 NOT_APPLICABLE = {
 }
 for _i in range(1, 18):
